@@ -26,43 +26,58 @@ MANIFEST = {
 THEOREMS = {
     "C14": ["Rot.C14_index_invariant", "Rot.C14_index_sequence", "Rot.C14_index_write", "Rot.C14_index_exactly_one_file",
             "Rot.C14_index_backup_bound", "Rot.C14_index_backup_bound_run", "Rot.C14_index_backup_bound_after_rotation",
-            "Rot.C14_index_no_clobber",
+            "Rot.C14_index_no_clobber", "Rot.C14_index_no_loss_without_overwrite", "Rot.C14_index_write_keeps_all_within_backup",
             "Rot.C14_index_append_restart_recovers", "Rot.C14_limit", "Rot.C14_unrelated_untouched",
             "Rot.C14_any_scheme_write", "Rot.C14_dated_run_partial", "Rot.C14_dated_no_clobber_partial",
             "Rot.C14_dated_restart_partial", "Rot.monoSfx_of_sorted", "Rot.rotate_generic", "Rot.chain_generic",
             "Rot.C14_F14_nonmonotone_order_fails", "Rot.C14_F15_restart_bound_fails",
             "Rot.C14_F18_lowered_max_never_shrinks", "Rot.rotate_index", "Rot.restart_inv", "Rot.applyMoves_get",
+            # Date / DateAndTime through restarts with configuration changes (Props/C14Dated.lean)
+            "Rot.C14_dated_invariant", "Rot.C14_dated_invariant_from_start", "Rot.C14_dated_no_clobber_run",
+            "Rot.C14_dated_exactly_one_file", "Rot.C14_dated_write_keeps_all_without_overwrite", "Rot.C14_dated_restart_leaves_files",
+            "Rot.C14_dated_same_second_restart_clobbers", "Rot.C14_dated_backwards_restart_breaks_order",
+            "Rot.C14_dated_backup_bound_across_restarts_fails",
+            # rendered names for any base file name (Props/C14Render.lean)
+            "Rot.C14_render_injective", "Rot.C14_render_collides_across_schemes", "Rot.C14_rendered_names_distinct_partial",
+            "Rot.C14_scan_sees_rotated", "Rot.C14_F28_no_extension_scan_blind", "Rot.C14_F29_append_option_scan_blind",
+            "Rot.C14_F28_blind_restart_loses_statements", "Rot.splitExt_spec", "Rot.getFilename_ext", "Rot.getFilename_noext",
             "Obligations.rot_extraction_complete", "Obligations.rot_size_facts_hold", "Obligations.rot_defaults", "Obligations.rot_enums",
             "Obligations.rot_deletes_all_excess", "Obligations.C14_bound_extracted", "Obligations.C14_extracted"],
     "C15": ["Rot.C15_grid", "Rot.C15_grid_least", "Rot.C15_first_point", "Rot.C15_separates", "Rot.C15_shares",
             "Rot.C15_suffix_of_opening_instant", "Rot.C15_composes_with_C14", "Rot.C15_F9_record_anchored_breaks_grid",
             "Rot.advance_loop", "Rot.gridInv_step",
+            "Rot.C15_separates_on_schedule", "Rot.C15_not_due_on_schedule", "Rot.pre_nil_of_pos",
             "Obligations.rot_time_extraction_complete", "Obligations.rot_time_facts_hold", "Obligations.rot_advances_from_schedule",
             "Obligations.C15_extracted"],
 }
-MODULES = {"C14": ["QuillModel.Props.C14"], "C15": ["QuillModel.Props.C15"]}
+MODULES = {"C14": ["QuillModel.Props.C14", "QuillModel.Props.C15Schedule", "QuillModel.Props.C14Dated", "QuillModel.Props.C14Render"], "C15": ["QuillModel.Props.C15", "QuillModel.Props.C15Schedule"]}
 OBLIG = {"C14": ["QuillModel.Obligations.RotSize"], "C15": ["QuillModel.Obligations.RotTime"]}
 
-C14_ORACLES = ("dup-id", "torn", "not-in-cur", "order", "not-suffix", "over-limit", "backup-bound", "backup-shrink")
+C14_ORACLES = ("dup-id", "torn", "not-in-cur", "order", "not-suffix", "over-limit", "backup-bound", "backup-shrink", "ow-off-deleted")
 C15_ORACLES = ("time-merge", "time-split", "suffix", "grid", "dst-drift")
-C15_COMPOSITION = ("dup-id", "torn", "not-in-cur", "order", "not-suffix", "backup-bound")
+C15_COMPOSITION = ("dup-id", "torn", "not-in-cur", "order", "not-suffix", "backup-bound", "ow-off-deleted")
 
 # known-finding classes, recognised by the *input class* printed on the ORACLE line
 FINDING_TEXT = {
     "F14": "Date/DateAndTime naming with non-monotone statement timestamps: a newer file gets an earlier date, name order no longer reproduces write order",
     "F15": "start-up recovery skipped (DateAndTime) / limited to today's files (Date): rotated files of earlier runs are not counted against max_backup_files across append-mode restarts, and the file deleted is not the oldest on disk",
     "F18": "only one file is deleted per rotation: when an append-mode start finds more rotated files than max_backup_files the set never shrinks to the limit (repaired in /repo by if -> while; fires only if that fix is reverted)",
+    "F28": "base file name without an extension (or a hidden file such as .log): the start-up scans compare the entry's extension with the base's empty one, recover and clean nothing; after an append-mode restart the rotations overwrite the previous run's rotated files",
+    "F29": "FilenameAppendOption set: the start-up scans use the name handed to the constructor, not the name the sink writes to (stem_<stamp>): nothing is recovered or cleaned, an append-mode restart with the same stamp overwrites the previous run's rotated files",
+    "F30": "RotatingJsonFileSink counts log_statement.size() in _file_size while the JSON line is what is written: a file passes rotation_max_file_size holding many statements",
+    "F31": "base file name whose stem ends in .<number> (x.1.log): the append-mode recovery of the Index scheme takes the current file itself for rotated file #1 of x.log; the next rotation renames the current file to x.2.log, outside the sink's family",
     "F19": "daily rotation adds 24 h: in a zone with DST the HH:MM schedule drifts by the DST shift after a transition",
 }
 
 
 def oracle_fields(line):
-    """the fixed key=value head of an ORACLE line: case op scheme nonmono arestarts unrecovered dst overstart.
+    """the fixed key=value head of an ORACLE line: case op scheme nonmono arestarts unrecovered dst overstart spell base sink
+    fa mixed blind.
     (`spell=` follows them for information only: the finding classes F14/F15/F18/F19 are keyed by scheme, timestamp
     monotonicity and what recovery skips by design — never by how the path was spelled.)"""
     w = line.split()
     d = {"kind": w[1]}
-    for x in w[2:10]:
+    for x in w[2:16]:
         if "=" in x:
             k, v = x.split("=", 1)
             d[k] = v
@@ -75,12 +90,25 @@ def classify(line):
     k, sch = f["kind"], f.get("scheme")
     if k == "dst-drift" and f.get("dst") == "1":
         return "F19"
-    if sch in ("D", "T") and f.get("nonmono") == "1" and k in ("order", "not-suffix", "backup-bound", "backup-shrink", "not-in-cur", "dup-id"):
+    # (ow-off-deleted under a dated scheme: a rotation renamed onto a file the sink does not track — same date/second
+    #  reached again by a backwards timestamp (F14) or left untracked by the start-up recovery (F15); witnesses
+    #  C14_dated_same_second_restart_clobbers / C14_dated_backwards_restart_breaks_order)
+    if sch in ("D", "T") and f.get("nonmono") == "1" and k in ("order", "not-suffix", "backup-bound", "backup-shrink", "not-in-cur", "dup-id", "ow-off-deleted"):
         return "F14"
-    if sch in ("D", "T") and f.get("unrecovered") == "1" and k in ("not-suffix", "backup-bound", "backup-shrink"):
+    if sch in ("D", "T") and f.get("unrecovered") == "1" and k in ("not-suffix", "backup-bound", "backup-shrink", "ow-off-deleted"):
         return "F15"
     if k == "backup-shrink" and f.get("overstart") == "1":
         return "F18"
+    # the classes found with other base names / sinks (input class = what is printed about the case, never the oracle text)
+    lost = ("ow-off-deleted", "not-suffix", "order", "dup-id", "backup-bound", "backup-shrink")
+    if k == "over-limit" and f.get("sink") == "J":
+        return "F30"
+    if f.get("fa", "N") != "N" and f.get("blind") == "1" and k in lost:
+        return "F29"
+    if f.get("base") in ("noext", "hidden") and f.get("blind") == "1" and k in lost:
+        return "F28"
+    if f.get("base") == "numstem" and sch == "I" and int(f.get("arestarts", "0") or 0) >= 1 and k in lost + ("not-in-cur",):
+        return "F31"
     return None
 
 
@@ -99,7 +127,7 @@ def spellings(stat_lines):
     """spell_<name>=n counters of the harness STATS lines, summed"""
     tot = {}
     for ln in stat_lines:
-        for k, v in re.findall(r"\b(spell_\w+|append_restart_over_rotated_files_noncanonical_spelling)=(\d+)", ln):
+        for k, v in re.findall(r"\b(spell_\w+|append_restart_over_\w+|start_changes_scheme|fa_base_moved)=(\d+)", ln):
             tot[k] = tot.get(k, 0) + int(v)
     return tot
 
@@ -153,10 +181,10 @@ def run(prop, tier):
     ck = vlib.Check(prop, tier, level="proof")
     ck.assumptions = [
         "the abstract file system (rename replaces the target, fails silently on a missing source; fopen w truncates, a keeps) renders POSIX for the calls the sink makes; fopen/rename/remove failures are not injected",
-        "naming scheme and base file name are fixed for the life of a directory; FilenameAppendOption::None",
+        "theorems: naming scheme and base file name fixed for the life of a directory, a base name whose rotated files the start-up scan can see (non-empty extension: `scanSees_rotated`; the others are finding F28, reproduced by the model through `restartBlind`), FilenameAppendOption::None, one size per statement (FileSink). The harness additionally drives, with the property oracle only: restarts that change the naming scheme, RotatingJsonFileSink (F30), the FilenameAppendOptions (F29: the name carries the wall-clock date)",
         "std::filesystem resolves every spelling of the directory (relative, ./, x/../x, symlink, trailing /.) to the same directory; the model has no spelling parameter — that the sink's recovery and rotation do not depend on it is tested by the harness (op parameter sp=, ignored by the driver), not proved",
         "timestamps are natural numbers of nanoseconds (no uint64 wrap); the zone is a constant UTC offset in the theorems (mktime = local seconds − offset)",
-        "names are structured values (suffix, index) in the theorems; their rendering (strftime %Y%m%d[_%H%M%S]) is compared by the harness",
+        "names are structured values (suffix, index) in the invariants; their rendering for any base file name (extract_stem_and_extension, _append_string/_index_to_filename, _get_filename) is part of the model (Rot/Render.lean), proved injective on the names of one scheme for every base name given an injective, dot-free suffix rendering (`C14_render_injective`), and every listing / _created_files entry is compared as a rendered string; the calendar arithmetic of strftime %Y%m%d[_%H%M%S] is compared by the harness, not proved injective",
     ]
     ps = ck.proof_side(MODULES[prop], THEOREMS[prop], OBLIG[prop])
     ex = ck.extracted
